@@ -136,4 +136,10 @@ theorem src_wasabiti (b0 rb1 t1 offset trec tp b1nom gamma : ℝ) :
     M.Src.sig_wasabiti b0 rb1 t1 offset trec tp b1nom gamma = wasabiti b0 rb1 t1 offset trec tp b1nom gamma :=
   M.SrcL.sig_wasabiti_eq b0 rb1 t1 offset trec tp b1nom gamma
 
+/-- the four elementary maps of `ConstraintsOp` as coded (translated from `/repo` on this run) are the model functions -/
+theorem src_constraint_maps (x β : ℝ) :
+    M.Src.sig_c_sigmoid x β = sigmoidT β x ∧ M.Src.sig_c_sigmoid_inverse x β = sigmoidInvT β x
+    ∧ M.Src.sig_c_softplus x β = softplusT β x ∧ M.Src.sig_c_softplus_inverse x β = softplusInvT β x :=
+  ⟨M.SrcL.sig_c_sigmoid_eq x β, M.SrcL.sig_c_sigmoid_inverse_eq x β, M.SrcL.sig_c_softplus_eq x β, M.SrcL.sig_c_softplus_inverse_eq x β⟩
+
 end C17
